@@ -172,8 +172,8 @@ func main() {
 	keys := []*big.Int{one, big.NewInt(2), nm1, ref.HalfN, ref.Lambda}
 	nonces := []*big.Int{one, big.NewInt(3), nm1, ref.HalfN, new(big.Int).Lsh(one, 128)}
 	if th {
-		keys = append(keys, big.NewInt(7), ref.ZnNeg(ref.Lambda), new(big.Int).Add(ref.HalfN, one))
-		nonces = append(nonces, big.NewInt(2), ref.Lambda, new(big.Int).Sub(ref.N, big.NewInt(2)))
+		keys = append(keys, big.NewInt(7), ref.ZnNeg(ref.Lambda), new(big.Int).Add(ref.HalfN, one), big.NewInt(3), new(big.Int).Sub(ref.N, big.NewInt(2)), new(big.Int).Lsh(one, 255), new(big.Int).Lsh(one, 128))
+		nonces = append(nonces, big.NewInt(2), ref.Lambda, new(big.Int).Sub(ref.N, big.NewInt(2)), big.NewInt(4), ref.ZnNeg(ref.Lambda), new(big.Int).Add(ref.HalfN, one))
 	}
 	sha := func(s string) []byte { return ref.TaggedHash("verif/C07", []byte(s)) }
 	max32 := bytes.Repeat([]byte{0xff}, 32)
@@ -241,7 +241,7 @@ func main() {
 		}
 	}
 	// (b) chosen R via key recovery: Q = r^-1 (sR - eG)
-	pts := mc.PointAlphabet(2, R.Seed, 2)
+	pts := mc.PointAlphabet(map[bool]int{false: 2, true: 5}[th], R.Seed, map[bool]int{false: 2, true: 6}[th])
 	svals := []*big.Int{one, ref.HalfN, new(big.Int).Add(ref.HalfN, one), nm1, big.NewInt(0x80)}
 	for pi, pv := range pts {
 		rp := pv.P
